@@ -29,6 +29,6 @@ def register(group):
         g.append(('gen_translate_%s' % nm, 'translate', [('curve', ty), ('z0', 'C')], T.LC))
         g.append(('gen_rotate_%s' % nm, 'rotate', [('curve', ty), ('degs', 'R'), ('origin', 'C')], T.LC))
         g.append(('gen_scale_%s' % nm, 'scale', [('curve', ty), ('sx', 'R'), ('sy', 'R'), ('origin', 'C')], T.LC))
-    g.append(('gen_translate_Arc', 'translate', [('curve', T.ARC), ('z0', 'C')], T.LC))
-    g.append(('gen_scale_Arc', 'scale', [('curve', T.ARC), ('sx', 'R'), ('sy', 'R'), ('origin', 'C')], T.LC))
+    g.append(('gen_translate_Arc', 'translate', [('curve', T.ARC), ('z0', 'C')], T.ARC))
+    g.append(('gen_scale_Arc', 'scale', [('curve', T.ARC), ('sx', 'R'), ('sy', ('static', None)), ('origin', 'C')], T.ARC))
     g.append(('gen_transform_Line', 'transform', [('curve', T.LINE), ('tf', ('tuple', 'R', 9))], T.LC))
